@@ -57,6 +57,12 @@ class InjectedFault(Exception):
   pass
 
 
+NO_POISON = object()
+# values a user function can return without raising that no table format can hold: (3-r)**0.5 beyond r=3 is complex,
+# a function that falls off its last branch returns None
+POISON_VALUES = [complex(1.5, 2.0), None, "1.0"]
+
+
 class Spy(object):
   """Transparent wrapper of a callable: forwards __call__, and .deriv/.deriv2 iff the
   wrapped object has them (hasattr must stay truthful: the library dispatches on it)."""
@@ -74,19 +80,20 @@ class Spy(object):
   def _hit(self, kind, r):
     self._log.add(self._name, kind, r)
     if self._fp is not None:
-      self._fp.tick()
+      return self._fp.tick()
+    return NO_POISON
 
   def __call__(self, r):
-    self._hit("call", r)
-    return self._f(r)
+    p = self._hit("call", r)
+    return self._f(r) if p is NO_POISON else p
 
   def _deriv(self, r):
-    self._hit("deriv", r)
-    return self._f.deriv(r)
+    p = self._hit("deriv", r)
+    return self._f.deriv(r) if p is NO_POISON else p
 
   def _deriv2(self, r):
-    self._hit("deriv2", r)
-    return self._f.deriv2(r)
+    p = self._hit("deriv2", r)
+    return self._f.deriv2(r) if p is NO_POISON else p
 
 
 FAULT_TYPES = [InjectedFault, ValueError, ZeroDivisionError, OverflowError, StopIteration, KeyError, AttributeError, TypeError,
@@ -97,17 +104,21 @@ class Failpoint(object):
   """Raises on the k-th tick (1-based).  k=None never fires.  The exception type is one a failing
   user function can plausibly raise (a domain error, an exhausted iterator, ...)."""
 
-  def __init__(self, k=None, exc_type=InjectedFault):
+  def __init__(self, k=None, exc_type=InjectedFault, poison=NO_POISON):
     self.k = k
     self.n = 0
     self.fired = False
     self.exc_type = exc_type
+    self.poison = poison
 
   def tick(self):
     self.n += 1
     if self.k is not None and self.n == self.k:
       self.fired = True
+      if self.poison is not NO_POISON:
+        return self.poison   # the evaluation "succeeds" with a value that cannot be written
       raise self.exc_type("INJECTED-FAULT at evaluation %d" % self.n)
+    return NO_POISON
 
 
 class RecordingFile(object):
